@@ -142,6 +142,7 @@ def write_replay(prop, violation):
             "cls": violation.get("cls", {}),
             "msg": violation.get("msg"),
             "case": violation.get("case"),
+            "shard": violation.get("shard"),
         }), indent=1, sort_keys=True)
     digest = hashlib.sha1(body.encode()).hexdigest()[:12]
     d = os.path.join(VERIF, "replays")
@@ -159,8 +160,24 @@ def do_replay(mod, path):
         rec = json.load(f)
     if not hasattr(mod, "replay"):
         raise HarnessError("check has no replay()")
-    out = mod.replay(rec.get("part"), rec.get("case"))
-    return list(out or [])
+    out = list(mod.replay(rec.get("part"), rec.get("case")) or [])
+    if out or not rec.get("shard") or os.environ.get("EVO_VERIF_NO_SHARD"):
+        return out
+    # The single case does not fail on its own.  If the code under test keeps
+    # state between calls (module-level caches, defaults evaluated once) the
+    # failure depends on what the process did before: re-run the whole shard
+    # that produced it in a fresh process; deterministic order dependence
+    # reproduces there, harness nondeterminism does not.
+    import subprocess
+    env = dict(os.environ, EVO_VERIF_NO_SHARD="1")
+    r = subprocess.run([sys.executable, "-m", "mc.runner", rec["property"],
+                        "--replay-shard", path], env=env, cwd=VERIF,
+                       capture_output=True, text=True)
+    msgs = [l[len("SHARD-VIOLATION "):] for l in r.stdout.splitlines()
+            if l.startswith("SHARD-VIOLATION ")]
+    return ["(reproduces only after the preceding cases of its shard - the "
+            "code under test keeps state between calls) " + m
+            for m in msgs]
 
 
 def main(argv=None):
@@ -169,6 +186,7 @@ def main(argv=None):
     ap.add_argument("--tier", default=os.environ.get("VERIF_TIER", "quick"),
                     choices=["quick", "thorough"])
     ap.add_argument("--replay", default=None)
+    ap.add_argument("--replay-shard", default=None)
     ap.add_argument("--jobs", type=int,
                     default=int(os.environ.get("VERIF_JOBS", "0")))
     ap.add_argument("--no-evidence", action="store_true")
@@ -188,6 +206,14 @@ def main(argv=None):
         mod = importlib.import_module("mc.checks.%s" % prop.lower())
         ctx = Ctx(prop, args.tier, seed, jobs, work)
 
+        if args.replay_shard:
+            from mc.engine.core import rerun_shard
+            with open(args.replay_shard) as f:
+                rec = json.load(f)
+            for m in rerun_shard(rec["shard"], rec.get("part"),
+                                 rec.get("cls"))[:3]:
+                print("SHARD-VIOLATION " + m.replace("\n", " "))
+            return 0
         if args.replay:
             msgs = do_replay(mod, args.replay)
             if msgs:
